@@ -80,6 +80,10 @@ def problems(draw, limits="mixed", max_step="none", weights="mixed", faults=Fals
     if draw(st.integers(0, 2)) == 0:
         spec["disabled_targets"] = []
     spec["restore_if_fail"] = draw(st.sampled_from([True, True, True, False]))
+    # arguments of the least-squares solve and the limit-checking mode (the properties hold for all of them)
+    spec["rcond"] = draw(st.sampled_from([None, None, None, 1e-10, 1e-3]))
+    spec["sing_val_cutoff"] = draw(st.sampled_from([None, None, None, 1, 2]))
+    spec["check_limits"] = draw(st.sampled_from([True, True, True, False]))
     if faults and draw(st.integers(0, 3)) == 0:
         spec["fault_at"] = draw(st.integers(3, 30))
         spec["fault_len"] = draw(st.sampled_from([1, 1, 1, 3]))
@@ -90,7 +94,8 @@ def problems(draw, limits="mixed", max_step="none", weights="mixed", faults=Fals
 
 def render(spec):
     keys = ("family", "shape", "n", "m", "x0", "limits", "vweights", "tweights", "max_step", "target_mode", "targets", "tols",
-            "n_steps_max", "broyden", "disabled_vary", "disabled_targets", "restore_if_fail", "fault_at")
+            "n_steps_max", "broyden", "disabled_vary", "disabled_targets", "restore_if_fail", "fault_at", "rcond",
+            "sing_val_cutoff", "check_limits")
     return {k: spec.get(k) for k in keys}
 
 
